@@ -227,7 +227,9 @@ def c05(res, tier, deadline):
 
 @check("C14")
 def c14(res, tier, deadline):
-    res.rule = ("policies A = release rebound, B = rebound + checked hash (replace), C = std_rtti "
+    res.rule = ("worlds: W2 = {A = release rebound, B = rebound + checked hash (replace)}; WE = {a policy whose "
+                "facets take a second template argument, its rebind}; WS = {policy::debug, policy::release "
+                "themselves}; W3 (thorough) adds C = std_rtti "
                 "+ vptr_map + vectored_error (thorough), sharing classes K0..K3 and methods with "
                 "the same key and signature; operations per policy: toggle each of 4 class "
                 "records (real class_declaration objects), toggle 3 definitions (one through the "
